@@ -15,7 +15,8 @@
      - environment: LDial (a client connects to the listener), LGate (the owning service's
        scheduler queue is full / has room again: OnSessionCreate's Post blocks / returns),
        LConnect (NewClientSession + Handle on a connection handed over directly), LSend (client
-       bytes arrive), LEof (client closes), LWfail (conn.Write fails from now on), LWstall
+       bytes arrive), LEof (client closes), LWfail (conn.Write fails from now on), LCloseErr
+       (conn.Close() will return an error), LWstall
        (conn.Write blocks until the connection is closed: the client stopped reading), LTick;
      - LStepA / LStepS: the accept loop (Accept ; connChan <- conn, BLOCKING when connChan holds
        99) and StartAcceptor's loop (<-connChan ; NewClientSession ; Handle);
@@ -87,6 +88,8 @@ Record conn := mkConn {
   c_eof : bool;
   c_wfail : bool;
   c_wstall : bool;
+  c_cerr : bool;
+  c_cret : Z;
   c_pp : Z;
   c_cause : bool;
   c_ncb : Z;
@@ -101,7 +104,7 @@ Record conn := mkConn {
    that RETURNED), c_nsent (push packets written to the client), c_arrived (data messages in the
    order the client sent them). *)
 Definition conn0 : conn :=
-  mkConn SStart false 0 RTop WLoop HLoop [] [] 0 [] false false false 0 false 0 0 0 [].
+  mkConn SStart false 0 RTop WLoop HLoop [] [] 0 [] false false false false 0 0 false 0 0 0 [].
 
 Inductive ev := EAdd (c : Z) | EMsg (c m : Z) | ERemove (c : Z).
 
@@ -111,6 +114,7 @@ Inductive hev :=
 | HMsg (c id m : Z)            (* Process(session of c with this id, message m) *)
 | HMsgNil (m : Z)              (* Process(nil, m): only the unrepaired code does this *)
 | HRemove (c id : Z) (gone : bool)   (* gone: the session was already deleted from the map *)
+| HOnClose (c id : Z)          (* the callback registered with HandlerComponent.AddOnSessionClose *)
 | HCloseCb (c id : Z).
 
 Record front := mkFront {
@@ -161,6 +165,7 @@ Inductive label :=
 | LEof (c : Z)
 | LWfail (c : Z)
 | LWstall (c : Z)
+| LCloseErr (c : Z)
 | LTick (d : Z)
 | LStep (c : Z) (t : tid)
 | LFlood (c n : Z)
@@ -199,45 +204,48 @@ Definition post (e : ev) (s : st) : st := s_q (q s ++ [e]) s.
 Definition set_front (f : front) (s : st) : st := s_fr f s.
 
 Definition k_status (x : status) (k : conn) : conn :=
-  mkConn x (c_latch k) (c_lasthb k) (c_rp k) (c_wp k) (c_hp k) (c_sendq k) (c_sendf k) (c_nq k) (c_inbox k) (c_eof k) (c_wfail k) (c_wstall k) (c_pp k) (c_cause k) (c_ncb k) (c_npush k) (c_nsent k) (c_arrived k).
+  mkConn x (c_latch k) (c_lasthb k) (c_rp k) (c_wp k) (c_hp k) (c_sendq k) (c_sendf k) (c_nq k) (c_inbox k) (c_eof k) (c_wfail k) (c_wstall k) (c_cerr k) (c_cret k) (c_pp k) (c_cause k) (c_ncb k) (c_npush k) (c_nsent k) (c_arrived k).
 Definition k_lasthb (x : Z) (k : conn) : conn :=
-  mkConn (c_status k) (c_latch k) x (c_rp k) (c_wp k) (c_hp k) (c_sendq k) (c_sendf k) (c_nq k) (c_inbox k) (c_eof k) (c_wfail k) (c_wstall k) (c_pp k) (c_cause k) (c_ncb k) (c_npush k) (c_nsent k) (c_arrived k).
+  mkConn (c_status k) (c_latch k) x (c_rp k) (c_wp k) (c_hp k) (c_sendq k) (c_sendf k) (c_nq k) (c_inbox k) (c_eof k) (c_wfail k) (c_wstall k) (c_cerr k) (c_cret k) (c_pp k) (c_cause k) (c_ncb k) (c_npush k) (c_nsent k) (c_arrived k).
 Definition k_rp (x : rpc) (k : conn) : conn :=
-  mkConn (c_status k) (c_latch k) (c_lasthb k) x (c_wp k) (c_hp k) (c_sendq k) (c_sendf k) (c_nq k) (c_inbox k) (c_eof k) (c_wfail k) (c_wstall k) (c_pp k) (c_cause k) (c_ncb k) (c_npush k) (c_nsent k) (c_arrived k).
+  mkConn (c_status k) (c_latch k) (c_lasthb k) x (c_wp k) (c_hp k) (c_sendq k) (c_sendf k) (c_nq k) (c_inbox k) (c_eof k) (c_wfail k) (c_wstall k) (c_cerr k) (c_cret k) (c_pp k) (c_cause k) (c_ncb k) (c_npush k) (c_nsent k) (c_arrived k).
 Definition k_wp (x : wpc) (k : conn) : conn :=
-  mkConn (c_status k) (c_latch k) (c_lasthb k) (c_rp k) x (c_hp k) (c_sendq k) (c_sendf k) (c_nq k) (c_inbox k) (c_eof k) (c_wfail k) (c_wstall k) (c_pp k) (c_cause k) (c_ncb k) (c_npush k) (c_nsent k) (c_arrived k).
+  mkConn (c_status k) (c_latch k) (c_lasthb k) (c_rp k) x (c_hp k) (c_sendq k) (c_sendf k) (c_nq k) (c_inbox k) (c_eof k) (c_wfail k) (c_wstall k) (c_cerr k) (c_cret k) (c_pp k) (c_cause k) (c_ncb k) (c_npush k) (c_nsent k) (c_arrived k).
 Definition k_hp (x : hpc) (k : conn) : conn :=
-  mkConn (c_status k) (c_latch k) (c_lasthb k) (c_rp k) (c_wp k) x (c_sendq k) (c_sendf k) (c_nq k) (c_inbox k) (c_eof k) (c_wfail k) (c_wstall k) (c_pp k) (c_cause k) (c_ncb k) (c_npush k) (c_nsent k) (c_arrived k).
+  mkConn (c_status k) (c_latch k) (c_lasthb k) (c_rp k) (c_wp k) x (c_sendq k) (c_sendf k) (c_nq k) (c_inbox k) (c_eof k) (c_wfail k) (c_wstall k) (c_cerr k) (c_cret k) (c_pp k) (c_cause k) (c_ncb k) (c_npush k) (c_nsent k) (c_arrived k).
 Definition k_inbox (x : list pkt) (k : conn) : conn :=
-  mkConn (c_status k) (c_latch k) (c_lasthb k) (c_rp k) (c_wp k) (c_hp k) (c_sendq k) (c_sendf k) (c_nq k) x (c_eof k) (c_wfail k) (c_wstall k) (c_pp k) (c_cause k) (c_ncb k) (c_npush k) (c_nsent k) (c_arrived k).
+  mkConn (c_status k) (c_latch k) (c_lasthb k) (c_rp k) (c_wp k) (c_hp k) (c_sendq k) (c_sendf k) (c_nq k) x (c_eof k) (c_wfail k) (c_wstall k) (c_cerr k) (c_cret k) (c_pp k) (c_cause k) (c_ncb k) (c_npush k) (c_nsent k) (c_arrived k).
 Definition k_pp (x : Z) (k : conn) : conn :=
-  mkConn (c_status k) (c_latch k) (c_lasthb k) (c_rp k) (c_wp k) (c_hp k) (c_sendq k) (c_sendf k) (c_nq k) (c_inbox k) (c_eof k) (c_wfail k) (c_wstall k) x (c_cause k) (c_ncb k) (c_npush k) (c_nsent k) (c_arrived k).
+  mkConn (c_status k) (c_latch k) (c_lasthb k) (c_rp k) (c_wp k) (c_hp k) (c_sendq k) (c_sendf k) (c_nq k) (c_inbox k) (c_eof k) (c_wfail k) (c_wstall k) (c_cerr k) (c_cret k) x (c_cause k) (c_ncb k) (c_npush k) (c_nsent k) (c_arrived k).
 Definition k_arrived (x : list Z) (k : conn) : conn :=
-  mkConn (c_status k) (c_latch k) (c_lasthb k) (c_rp k) (c_wp k) (c_hp k) (c_sendq k) (c_sendf k) (c_nq k) (c_inbox k) (c_eof k) (c_wfail k) (c_wstall k) (c_pp k) (c_cause k) (c_ncb k) (c_npush k) (c_nsent k) x.
+  mkConn (c_status k) (c_latch k) (c_lasthb k) (c_rp k) (c_wp k) (c_hp k) (c_sendq k) (c_sendf k) (c_nq k) (c_inbox k) (c_eof k) (c_wfail k) (c_wstall k) (c_cerr k) (c_cret k) (c_pp k) (c_cause k) (c_ncb k) (c_npush k) (c_nsent k) x.
 Definition k_eof (k : conn) : conn :=
-  mkConn (c_status k) (c_latch k) (c_lasthb k) (c_rp k) (c_wp k) (c_hp k) (c_sendq k) (c_sendf k) (c_nq k) (c_inbox k) true (c_wfail k) (c_wstall k) (c_pp k) (c_cause k) (c_ncb k) (c_npush k) (c_nsent k) (c_arrived k).
+  mkConn (c_status k) (c_latch k) (c_lasthb k) (c_rp k) (c_wp k) (c_hp k) (c_sendq k) (c_sendf k) (c_nq k) (c_inbox k) true (c_wfail k) (c_wstall k) (c_cerr k) (c_cret k) (c_pp k) (c_cause k) (c_ncb k) (c_npush k) (c_nsent k) (c_arrived k).
 Definition k_wfail (k : conn) : conn :=
-  mkConn (c_status k) (c_latch k) (c_lasthb k) (c_rp k) (c_wp k) (c_hp k) (c_sendq k) (c_sendf k) (c_nq k) (c_inbox k) (c_eof k) true (c_wstall k) (c_pp k) (c_cause k) (c_ncb k) (c_npush k) (c_nsent k) (c_arrived k).
+  mkConn (c_status k) (c_latch k) (c_lasthb k) (c_rp k) (c_wp k) (c_hp k) (c_sendq k) (c_sendf k) (c_nq k) (c_inbox k) (c_eof k) true (c_wstall k) (c_cerr k) (c_cret k) (c_pp k) (c_cause k) (c_ncb k) (c_npush k) (c_nsent k) (c_arrived k).
 Definition k_wstall (k : conn) : conn :=
-  mkConn (c_status k) (c_latch k) (c_lasthb k) (c_rp k) (c_wp k) (c_hp k) (c_sendq k) (c_sendf k) (c_nq k) (c_inbox k) (c_eof k) (c_wfail k) true (c_pp k) (c_cause k) (c_ncb k) (c_npush k) (c_nsent k) (c_arrived k).
+  mkConn (c_status k) (c_latch k) (c_lasthb k) (c_rp k) (c_wp k) (c_hp k) (c_sendq k) (c_sendf k) (c_nq k) (c_inbox k) (c_eof k) (c_wfail k) true (c_cerr k) (c_cret k) (c_pp k) (c_cause k) (c_ncb k) (c_npush k) (c_nsent k) (c_arrived k).
+Definition k_cerr (k : conn) : conn :=
+  mkConn (c_status k) (c_latch k) (c_lasthb k) (c_rp k) (c_wp k) (c_hp k) (c_sendq k) (c_sendf k) (c_nq k) (c_inbox k) (c_eof k) (c_wfail k) (c_wstall k) true (c_cret k) (c_pp k) (c_cause k) (c_ncb k) (c_npush k) (c_nsent k) (c_arrived k).
 Definition k_cause (k : conn) : conn :=
-  mkConn (c_status k) (c_latch k) (c_lasthb k) (c_rp k) (c_wp k) (c_hp k) (c_sendq k) (c_sendf k) (c_nq k) (c_inbox k) (c_eof k) (c_wfail k) (c_wstall k) (c_pp k) true (c_ncb k) (c_npush k) (c_nsent k) (c_arrived k).
+  mkConn (c_status k) (c_latch k) (c_lasthb k) (c_rp k) (c_wp k) (c_hp k) (c_sendq k) (c_sendf k) (c_nq k) (c_inbox k) (c_eof k) (c_wfail k) (c_wstall k) (c_cerr k) (c_cret k) (c_pp k) true (c_ncb k) (c_npush k) (c_nsent k) (c_arrived k).
 Definition k_npush (k : conn) : conn :=
-  mkConn (c_status k) (c_latch k) (c_lasthb k) (c_rp k) (c_wp k) (c_hp k) (c_sendq k) (c_sendf k) (c_nq k) (c_inbox k) (c_eof k) (c_wfail k) (c_wstall k) (c_pp k) (c_cause k) (c_ncb k) (c_npush k + 1) (c_nsent k) (c_arrived k).
+  mkConn (c_status k) (c_latch k) (c_lasthb k) (c_rp k) (c_wp k) (c_hp k) (c_sendq k) (c_sendf k) (c_nq k) (c_inbox k) (c_eof k) (c_wfail k) (c_wstall k) (c_cerr k) (c_cret k) (c_pp k) (c_cause k) (c_ncb k) (c_npush k + 1) (c_nsent k) (c_arrived k).
 Definition k_nsent (k : conn) : conn :=
-  mkConn (c_status k) (c_latch k) (c_lasthb k) (c_rp k) (c_wp k) (c_hp k) (c_sendq k) (c_sendf k) (c_nq k) (c_inbox k) (c_eof k) (c_wfail k) (c_wstall k) (c_pp k) (c_cause k) (c_ncb k) (c_npush k) (c_nsent k + 1) (c_arrived k).
+  mkConn (c_status k) (c_latch k) (c_lasthb k) (c_rp k) (c_wp k) (c_hp k) (c_sendq k) (c_sendf k) (c_nq k) (c_inbox k) (c_eof k) (c_wfail k) (c_wstall k) (c_cerr k) (c_cret k) (c_pp k) (c_cause k) (c_ncb k) (c_npush k) (c_nsent k + 1) (c_arrived k).
 (* chSend <- x *)
 Definition k_enq (x : witem) (k : conn) : conn :=
-  mkConn (c_status k) (c_latch k) (c_lasthb k) (c_rp k) (c_wp k) (c_hp k) (x :: c_sendq k) (c_sendf k) (c_nq k + 1) (c_inbox k) (c_eof k) (c_wfail k) (c_wstall k) (c_pp k) (c_cause k) (c_ncb k) (c_npush k) (c_nsent k) (c_arrived k).
+  mkConn (c_status k) (c_latch k) (c_lasthb k) (c_rp k) (c_wp k) (c_hp k) (x :: c_sendq k) (c_sendf k) (c_nq k + 1) (c_inbox k) (c_eof k) (c_wfail k) (c_wstall k) (c_cerr k) (c_cret k) (c_pp k) (c_cause k) (c_ncb k) (c_npush k) (c_nsent k) (c_arrived k).
 (* <-chSend: the front part had an element, r stays in front *)
 Definition k_deqf (r : list witem) (k : conn) : conn :=
-  mkConn (c_status k) (c_latch k) (c_lasthb k) (c_rp k) (c_wp k) (c_hp k) (c_sendq k) r (c_nq k - 1) (c_inbox k) (c_eof k) (c_wfail k) (c_wstall k) (c_pp k) (c_cause k) (c_ncb k) (c_npush k) (c_nsent k) (c_arrived k).
+  mkConn (c_status k) (c_latch k) (c_lasthb k) (c_rp k) (c_wp k) (c_hp k) (c_sendq k) r (c_nq k - 1) (c_inbox k) (c_eof k) (c_wfail k) (c_wstall k) (c_cerr k) (c_cret k) (c_pp k) (c_cause k) (c_ncb k) (c_npush k) (c_nsent k) (c_arrived k).
 (* <-chSend: the front part was empty; the back part, reversed, becomes the front *)
 Definition k_deqb (r : list witem) (k : conn) : conn :=
-  mkConn (c_status k) (c_latch k) (c_lasthb k) (c_rp k) (c_wp k) (c_hp k) [] r (c_nq k - 1) (c_inbox k) (c_eof k) (c_wfail k) (c_wstall k) (c_pp k) (c_cause k) (c_ncb k) (c_npush k) (c_nsent k) (c_arrived k).
-(* the effect of a Close() that flips the latch, on the connection record *)
+  mkConn (c_status k) (c_latch k) (c_lasthb k) (c_rp k) (c_wp k) (c_hp k) [] r (c_nq k - 1) (c_inbox k) (c_eof k) (c_wfail k) (c_wstall k) (c_cerr k) (c_cret k) (c_pp k) (c_cause k) (c_ncb k) (c_npush k) (c_nsent k) (c_arrived k).
+(* the effect of a Close() that flips the latch, on the connection record.  c_cret: what
+   conn.Close() returned (1 nil, 2 an error) - nothing depends on it *)
 Definition k_closed (k : conn) : conn :=
-  mkConn SClosed true (c_lasthb k) (c_rp k) (c_wp k) (c_hp k) (c_sendq k) (c_sendf k) (c_nq k) (c_inbox k) (c_eof k) (c_wfail k) (c_wstall k) (c_pp k) (c_cause k) (c_ncb k + 1) (c_npush k) (c_nsent k) (c_arrived k).
+  mkConn SClosed true (c_lasthb k) (c_rp k) (c_wp k) (c_hp k) (c_sendq k) (c_sendf k) (c_nq k) (c_inbox k) (c_eof k) (c_wfail k) (c_wstall k) (c_cerr k) (if c_cerr k then 2 else 1) (c_pp k) (c_cause k) (c_ncb k + 1) (c_npush k) (c_nsent k) (c_arrived k).
 
 (* ClientSession.Close(): the ONLY place that posts ERemove *)
 Definition do_close (c : Z) (s : st) : st :=
@@ -389,7 +397,7 @@ Definition front_ev (f : front) (e : ev) : front :=
       let id := netid_of f c in
       match aget id (f_live f) with
       | Some c' => mkFront (f_next f) (adel id (f_live f)) (f_netid f)
-                           (f_hlog f ++ [HRemove c' id true; HCloseCb c' id])
+                           (f_hlog f ++ [HRemove c' id true; HOnClose c' id; HCloseCb c' id])
                            (f_used f) (f_reused f)
       | None => f
       end
@@ -486,6 +494,11 @@ Definition step (s : st) (l : label) : st :=
       | Some k => set_conn c (k_wstall k) s
       | None => s
       end
+  | LCloseErr c =>               (* conn.Close() will report an error (tls: closeNotify to a dead peer) *)
+      match aget c (conns s) with
+      | Some k => set_conn c (k_cerr k) s
+      | None => s
+      end
   | LTick d => s_now (now s + Z.max 0 d) s
   | LStep c t =>
       match aget c (conns s) with
@@ -553,6 +566,7 @@ Inductive op :=
 | OHeartbeat (c : Z)            (* one heartbeat tick of c *)
 | OWfail (c : Z)
 | OWstall (c : Z)               (* the client stops reading: Write blocks *)
+| OCloseErr (c : Z)             (* conn.Close() will return an error *)
 | OFlood (c n : Z)              (* a goroutine issues n pushes to c, one after the other *)
 | OPush (cs : list Z)
 | OFront
@@ -564,6 +578,7 @@ Inductive op :=
 | ORaceRel (c : Z) (l : list op) (* ... concurrently with releasing c's parked reader *)
 | ORealTicker (k : Z)           (* scripted scenario run with the REAL heartbeat ticker, see rt_script *)
 | OTcp (v k : Z)                (* scripted scenario over a REAL TCP socket and acceptor, see tcp_script *)
+| ONet (t v k : Z)              (* the same over transport t (TCP, TLS, websocket, wss), see net_script *)
 | OBurst (n : Z).               (* n simultaneous TCP clients while the service is busy, see burst_script *)
 
 (* labels a free-running connection takes next (none when parked / blocked) *)
@@ -643,6 +658,7 @@ Definition exec_simple (s : st) (o : op) : st :=
       end
   | OWfail c => step s (LWfail c)
   | OWstall c => step s (LWstall c)
+  | OCloseErr c => step s (LCloseErr c)
   | _ => s
   end.
 
@@ -661,7 +677,7 @@ Definition exec_op1 (s : st) (o : op) : st :=
   match o with
   | OConnect c => settle_after c s (step s (LConnect c))
   | OSend c p => settle_after c s (step s (LSend c p))
-  | ORelease c | OClientClose c | OCloseExt c | OHeartbeat c | OWfail c | OWstall c =>
+  | ORelease c | OClientClose c | OCloseExt c | OHeartbeat c | OWfail c | OWstall c | OCloseErr c =>
       settle_after c s (exec_simple s o)
   | OFlood c n => settle_after c s (step s (LFlood c n))
   | OKick c => settle_all (exec_simple s o)
@@ -674,7 +690,7 @@ Definition exec_op1 (s : st) (o : op) : st :=
   | ODial c => settle_all (step s (LDial c))
   | ORace l => settle_all (fold_left exec_simple l s)
   | ORaceRel c l => settle_all (fold_left exec_simple (ORelease c :: l) s)
-  | ORealTicker _ | OTcp _ _ | OBurst _ => s
+  | ORealTicker _ | OTcp _ _ | ONet _ _ _ | OBurst _ => s
   end.
 
 Definition zseq (n : Z) : list Z := map Z.of_nat (seq 1 (Z.to_nat n)).
@@ -689,11 +705,18 @@ Definition rt_script (k : Z) : list op :=
   ++ (if Z.odd k then [OSend 1 (PData 100)] else [])
   ++ [ODrain; OTick 20000; OHeartbeat 1; ORelease 1; ODrain].
 
-(* OTcp v k: one connection accepted by the real TCPAcceptor through pomelo.StartAcceptor,
-   read by the real tcpPlayerConn.GetNextMessage, nothing held: handshake, ack, k messages,
-   then end cause v: 0 client close, 1 illegal header, 2 truncated frame + close, 3 kick,
-   4 undecodable message, 5 (instead of all that) a handshake with bad JSON. *)
-Definition tcp_script (v k : Z) : list op :=
+(* ONet t v k: one connection over a REAL socket accepted by a real acceptor started through
+   pomelo.StartAcceptor - transport t: 0 TCP (TCPAcceptor / tcpPlayerConn), 1 TCP+TLS (the same
+   with certificates), 2 websocket (WSAcceptor / WSConn), 3 websocket over TLS - nothing held:
+   handshake, ack, k messages, then end cause v:
+     0 client closes politely        1 illegal header              2 truncated frame + close
+     3 kick                          4 undecodable message         5 (instead of all that) a
+     handshake with bad JSON         6 client aborts (RST)         7 heartbeat expiry
+     8 frame longer than its header  9 the client stops reading, the writer parks in the socket
+     write, then kick                10 the same, then heartbeat expiry.
+   The transport does not change what must be observed.  With TLS and a peer that is gone
+   (6) conn.Close() returns an error: OCloseErr. *)
+Definition net_script (t v k : Z) : list op :=
   if Z.eqb v 5 then [ODial 1; OSend 1 PHandshakeBad; ORelease 1; ODrain]
   else
     [ODial 1; OSend 1 PHandshake; ORelease 1; OSend 1 PAck; ORelease 1]
@@ -703,8 +726,17 @@ Definition tcp_script (v k : Z) : list op :=
         else if Z.eqb v 1 then [OSend 1 PBadType; ORelease 1]
         else if Z.eqb v 2 then [OSend 1 PTruncEof; ORelease 1]
         else if Z.eqb v 3 then [OKick 1]
-        else [OSend 1 PDataBad; ORelease 1])
+        else if Z.eqb v 4 then [OSend 1 PDataBad; ORelease 1]
+        else if Z.eqb v 6 then [OCloseErr 1; OClientClose 1; ORelease 1]
+        else if Z.eqb v 7 then [OTick 20000; OHeartbeat 1]
+        else if Z.eqb v 8 then [OSend 1 PBadType; ORelease 1]
+        else if Z.eqb v 9 then [OWstall 1; OPush [1]; OPush [1]; OKick 1]
+        else if Z.eqb v 10 then [OWstall 1; OPush [1]; OPush [1]; OTick 20000; OHeartbeat 1]
+        else [OClientClose 1; ORelease 1])
     ++ [ODrain].
+
+(* OTcp v k = ONet 0 v k (kept for recorded replays) *)
+Definition tcp_script (v k : Z) : list op := net_script 0 v k.
 
 (* OBurst n: the owning service is busy (its scheduler queue is full, so the OnSessionCreate
    of the first accepted connection parks StartAcceptor's loop); n clients connect at once:
@@ -724,6 +756,7 @@ Definition exec_op (s : st) (o : op) : st :=
   match o with
   | ORealTicker k => fold_left exec_op1 (rt_script k) s
   | OTcp v k => fold_left exec_op1 (tcp_script v k) s
+  | ONet t v k => fold_left exec_op1 (net_script t v k) s
   | OBurst n => fold_left exec_op1 (burst_script n) s
   | _ => exec_op1 s o
   end.
@@ -770,6 +803,7 @@ Definition expand (ops : list op) : list op :=
   flat_map (fun o => match o with
                      | ORealTicker k => rt_script k
                      | OTcp v k => tcp_script v k
+                     | ONet t v k => net_script t v k
                      | OBurst n => burst_script n
                      | _ => [o]
                      end) ops.
